@@ -19,6 +19,9 @@ class CallMixin:
         fn = None
         if isinstance(n.func, ast.Name):
             name = n.func.id
+            lz = self.unit.contract.calls.get(name)
+            if lz is not None and lz.kind == "custom" and lz.lazy:
+                return lz.handler(self, n, [], {})
             if self.spec:
                 r = self.spec_call(name, n)
                 if r is not NotImplemented:
